@@ -126,21 +126,25 @@ def candidates():
 _CAND = None
 
 
-def colliders(hasher: Hasher, T: int, slot: int, count: int, suffix: str = "", avoid=()):
-    """first `count` candidate strings s (not in avoid) with hash(s+suffix) % T == slot."""
+def colliders(hasher: Hasher, T: int, slot: int, count: int, prefix: str = "", avoid=()):
+    """first `count` candidate strings prefix+s (not in avoid) with hash % T == slot.  djb2 with a modulus that shares a
+    factor with 33 cannot reach every slot from every string family; if the requested slot has too few candidates the next
+    lower slot is used (the cluster still crosses the end of the table when it is long enough)."""
     global _CAND
     if _CAND is None:
         _CAND = list(itertools.islice(candidates(), 26 + 676 + 17576))
-    out = []
     avoid = set(avoid)
-    for s in _CAND:
-        full = s + suffix
-        if full in avoid:
-            continue
-        if hasher.slot(full.encode(), T) == slot:
-            out.append(full)
-            if len(out) == count:
-                return out
+    for k in range(T):
+        want = (slot - k) % T
+        out = []
+        for s in _CAND:
+            full = prefix + s
+            if full in avoid:
+                continue
+            if hasher.slot(full.encode(), T) == want:
+                out.append(full)
+                if len(out) == count:
+                    return out
     raise RuntimeError("not enough colliders for T=%d slot=%d" % (T, slot))
 
 
